@@ -1176,6 +1176,7 @@ fn gen_history(rng: &mut Rng, prop: &str, max_ops: usize) -> Hist {
     let n_ops = rng.range(3, max_ops as u64) as usize;
     let mut cur = t0;
     let mut recent: Vec<KindSpec> = vec![];
+    let mut seen_routes: Vec<usize> = vec![];
     let weights: &[u8] = match prop {
         "C07" => &[0, 0, 0, 1, 1, 1, 2, 2, 3],
         "C06" => &[0, 0, 0, 0, 1, 1, 2, 3, 3],
@@ -1187,7 +1188,22 @@ fn gen_history(rng: &mut Rng, prop: &str, max_ops: usize) -> Hist {
         let op = match w {
             0 => {
                 cur = gen_now(rng, cur, &l, thr_ns);
-                OpSpec::Maintain { now: cur, resp: gen_resp(rng, &h.routes, cur, thr_ns) }
+                let mut resp = gen_resp(rng, &h.routes, cur, thr_ns);
+                // a route that was fetched before comes back without (usable) metadata: same fingerprint, but a
+                // hop-based policy can no longer be evaluated on it
+                if let RespSpec::Ok(v) = &mut resp {
+                    if !seen_routes.is_empty() && rng.chance(1, 4) {
+                        let route = *rng.pick(&seen_routes);
+                        let expiry = (cur / NS + thr_ns / NS + rng.range(60, 20000)) as u32;
+                        v.push(PSpec { route, expiry, meta: 1 + rng.below(2) as u8 });
+                    }
+                    for p in v.iter().filter(|p| p.meta == 0) {
+                        if !seen_routes.contains(&p.route) {
+                            seen_routes.push(p.route);
+                        }
+                    }
+                }
+                OpSpec::Maintain { now: cur, resp }
             }
             1 => {
                 let k = gen_kind(rng, &h.routes, &recent);
@@ -1466,6 +1482,25 @@ fn probes(prop: &str) -> Vec<Hist> {
                 OpSpec::Send { now: s(1) },
             ],
         });
+        // a refetch returns the cached paths again, now without (interface) metadata: the copies must not replace the
+        // policy-checked ones
+        let mut c = base_cfg();
+        c.refetch_interval_ms = 100_000;
+        for pol in [PolSpec::Acl("+".into()), PolSpec::Pattern("0*".into())] {
+            v.push(Hist {
+                kind: "probe-refetch-loses-metadata".into(),
+                cfg: c.clone(),
+                pol,
+                routes: two_routes(),
+                t0,
+                ops: vec![
+                    OpSpec::Maintain { now: s(0), resp: RespSpec::Ok(vec![PSpec { route: 0, expiry: far, meta: 0 }, PSpec { route: 1, expiry: far, meta: 0 }]) },
+                    OpSpec::Send { now: s(1) },
+                    OpSpec::Maintain { now: s(100), resp: RespSpec::Ok(vec![PSpec { route: 0, expiry: far + 50, meta: 1 }, PSpec { route: 1, expiry: far + 50, meta: 2 }]) },
+                    OpSpec::Send { now: s(101) },
+                ],
+            });
+        }
         // hop policy and paths without metadata
         v.push(Hist {
             kind: "probe-no-metadata".into(),
